@@ -229,3 +229,21 @@ def law_pairs(rng=None, n_random=0):
                                       ([1, 3], [3], [K("MinimumTrials", k=5), K("Pin", i=-1, f=1, l=1)])]):
         add("cross-multi-%d" % ci, cross(d, x, cs), multi(d, [x], cs, True, "weight", "equal"))
     return pairs
+
+
+def weighted_blocks():
+    """weights and combinators: a weighted factor in some but not all crossings, weighted factors under Repeat / Nest"""
+    out = []
+    F = [basic("a", 2, [2, 1]), basic("b", 2), basic("c", 2, [1, 2])]
+    for mode in ("weight", "repeat"):
+        out.append(case(F, multi([1, 2, 3], [[1], [2]], [], True, mode, "equal"), "C", ["weights", "Multi", mode, "weighted-in-one-crossing"], "wblk-multi-%s-a" % mode))
+        out.append(case(F, multi([1, 2, 3], [[2], [1]], [], True, mode, "equal"), "C", ["weights", "Multi", mode, "weighted-in-one-crossing"], "wblk-multi-%s-b" % mode))
+    out.append(case(F, rep(cross([1, 2], [1]), [K("MinimumTrials", k=6)]), "C", ["weights", "Repeat"], "wblk-repeat-crossed"))
+    out.append(case(F, rep(cross([2, 3], [2]), [K("MinimumTrials", k=4)]), "C", ["weights", "Repeat", "weights-uncrossed"], "wblk-repeat-uncrossed"))
+    out.append(case(F, rep(cross([2, 3], [2], [K("AtMostKInARow", k=1, f=3, l=2)]), [K("MinimumTrials", k=4)]), "C",
+                    ["weights", "Repeat", "weights-uncrossed", "inner", "AtMost1"], "wblk-repeat-uncrossed-in"))
+    out.append(case(F, rep(cross([2, 3], [2]), [K("MinimumTrials", k=4), K("AtMostKInARow", k=1, f=3, l=2)]), "C",
+                    ["weights", "Repeat", "weights-uncrossed", "outer", "AtMost1"], "wblk-repeat-uncrossed-out"))
+    out.append(case(F, nest(cross([1], [1]), cross([2], [2])), "C", ["weights", "Nest"], "wblk-nest-outer-weighted"))
+    out.append(case(F, nest(cross([2], [2]), cross([1], [1])), "C", ["weights", "Nest"], "wblk-nest-inner-weighted"))
+    return out
